@@ -409,7 +409,7 @@ func c05rowPlacement(c *Ctx, r *Result, rule string) {
 		r.Check(okFlag, rule, cons, c.InstrPos(call), "a copy of the clipped data in one piece is guarded by a flag that a loop over the dimensions left at its initial value (rows of a clipped chunk are shorter than nominal rows: copied in one piece, every row after the first lands at the wrong offset)")
 	})
 	if n == 0 {
-		r.Shortfall(c, rule, rule+": no copy into the nominal buffer found in expandEdgeChunk")
+		r.Undec(rule, c.Name(fn)+"#copy-into-nominal-buffer", c.Pos(fn.Pos()), "no copy into a buffer made in expandEdgeChunk found (the buffer may come from elsewhere: C13.8 decides whether it is fresh)")
 	}
 }
 
